@@ -10,6 +10,9 @@
   "rule ccm\n  command = cl /showIncludes $in\n  deps = msvc\n" \
   "rule gen\n  command = gen $in > $out\n  restat = 1\n" \
   "rule conf\n  command = configure $in\n  generator = 1\n" \
+  "rule gend\n  command = gen -MD $in > $out\n  restat = 1\n  depfile = $out.d\n  deps = gcc\n" \
+  "rule genf\n  command = gen -MD $in > $out\n  restat = 1\n  depfile = $out.d\n" \
+  "rule link2\n  command = ld @$out.rsp -o $out\n  rspfile = $out.rsp\n  rspfile_content = $in\n" \
   "rule link\n  command = ld $in -o $out\n  rspfile = $out.rsp\n  rspfile_content = $in_newline\n"
 static const Scenario kScenarios[] = {
   /* 0 */ { "chain", { RULES "build b: cc a\nbuild c: cc b\nbuild d: cc c a2\n", RULES "build b: cc a\n  command = cc -O2 $in -o $out\nbuild c: cc b\nbuild d: cc c a2\n", NULL },
@@ -55,6 +58,12 @@ static const Scenario kScenarios[] = {
             { { "dd", "", 0, "ninja_dyndep_version = 1\nbuild out | o2: dyndep\n" }, { "out", "", EXPECT_CYCLE, NULL }, { NULL } } },
   /* 24 */ { "independent_depfile_edges", { RULES "build a.o: cc a.c\nbuild dir/lib: cc a.o\nbuild b.o: ccd b.c\nbuild c.o: ccf c.c\nbuild all: phony dir/lib b.o c.o\n", NULL, NULL },
             "a.c b.c c.c hdr", "all", { { "b.o", "hdr", 0, NULL }, { "c.o", "hdr", 0, NULL }, { NULL } } },
+  /* 25 */ { "restat_with_deps", { RULES "build o: gend c\nbuild p: genf c2\nbuild x: cc o p\n", NULL, NULL },
+            "c c2 hdr", "x", { { "o", "hdr", KEEP_IF_SAME | HALVE, NULL }, { "p", "hdr", KEEP_IF_SAME | HALVE, NULL }, { NULL } } },
+  /* 26 */ { "restat_order_only_newer", { RULES "build mid: gen s\nbuild st: cc s2\nbuild out: cc mid || st\n", NULL, NULL },
+            "s s2", "out", { { "mid", "", KEEP_IF_SAME | HALVE, NULL }, { NULL } } },
+  /* 27 */ { "rspfile_empty_content", { RULES "build o1: cc c1\nbuild app: link2 | o1\nbuild app2: link2 o1\n", NULL, NULL },
+            "c1", "app app2", { { NULL } } },
 };
 #ifndef SCENARIO
 #define SCENARIO 0
